@@ -171,3 +171,27 @@ Theorem C09_loops_rs_match_model w :
      match Cast.U_from_int pb w n from with Ret r => Done r | Panic => Panicked end).
 Proof. exact (loops_C09_match_model w). Qed.
 Print Assumptions C09_loops_rs_match_model.
+(* ---- tie to the source, bnum -> primitive: buint_as_int! of /repo/src/buint/cast.rs (`impl CastFrom<$BUint<N>> for $int`) and bint_as!
+   of /repo/src/bint/cast.rs (`impl CastFrom<$BInt<N>> for $int`), $int = every primitive integer type (pb = <$int>::BITS, ps = its
+   signedness; the accumulator handled as its pb-bit pattern, vocabulary Model/ImpConv.v), REGENERATED on every run
+   (Generated/ConvGen.v, tools/rs2v_conv.py) compute exactly the model's U_as_int / I_as_int, for both values of the model's
+   overflow-check flag, for every power-of-two digit width and a budget >= N: they neither index out of bounds nor shift by
+   >= pb nor run out of budget. ---- *)
+From Bnum.Generated Require Import ConvGen.
+From Bnum.Proofs Require Import ConvGenTieC09.
+Theorem C09_conv_rs_matches_model dbg w lg : 0 <= lg -> w = 2 ^ lg ->
+  forall n pb ps ds fuel, length ds = n -> (n <= fuel)%nat ->
+  ConvGen.buint_as_int w (Z.of_nat n) fuel pb ps ds =
+    match Cast.U_as_int dbg pb ps w ds with Ret r => Done r | Panic => Panicked end /\
+  ConvGen.bint_as_int w (Z.of_nat n) fuel pb ps ds =
+    match Cast.I_as_int dbg pb ps w ds with Ret r => Done r | Panic => Panicked end.
+Proof. exact (conv_C09_match_model dbg w lg). Qed.
+Print Assumptions C09_conv_rs_matches_model.
+(* primitive -> BInt: as_bint! of /repo/src/bint/cast.rs (`impl CastFrom<$ty> for $BInt<N>`, $ty a primitive integer; the two further
+   instantiations at bool / char are not covered) is Self::from_bits($BUint::cast_from(from)) = the model's I_from_int; `$BUint::cast_from`
+   is the model's U_from_int, whose own tie is C09_loops_rs_match_model above (as_buint!). *)
+Theorem C09_conv_from_rs_matches_model w n pb from fuel :
+  ConvGen.bint_from_prim w (Z.of_nat n) fuel pb from =
+  match Cast.I_from_int pb w n from with Ret r => Done r | Panic => Panicked end.
+Proof. exact (conv_bint_from_prim w n pb from fuel). Qed.
+Print Assumptions C09_conv_from_rs_matches_model.
